@@ -20,7 +20,11 @@ CONSTANTS Strict,       \* strict_threshold
           ReplaceAll,   \* replace_all
           LVals,        \* alphabet of likelihood values (naturals)
           MaxBatch,     \* largest batch handed to an insertion
-          MaxSamples    \* bound on the number of stored samples (makes the graph finite)
+          MaxSamples,   \* bound on the number of stored samples (makes the graph finite)
+          OwnThreshold  \* TRUE: a threshold is the likelihood of one of the store's own live samples
+                        \* (the protocol of the property); FALSE: any value - what the sampler does to
+                        \* the store that is not its main one, and where np.argmax of an all-False
+                        \* mask (= 0) becomes reachable
 
 VARIABLES samples,   \* Seq([id, L])        the structured array, in order
           rows,      \* Seq(id)             owners of the rows of log_q
@@ -148,7 +152,7 @@ AddInitialOK(s, lst, b) == lst = "init"
 AddOK(s, lst, b)        == lst \notin {"init", "finalise"} /\ (Strict => s.thr # 0)
 ThresholdOK(s, lst, t)  == /\ lst \notin {"init", "finalise", "threshold"}
                            /\ ~s.liveNone
-                           /\ \E i \in DOMAIN s.live : s.samples[s.live[i] + 1].L = t
+                           /\ OwnThreshold => \E i \in DOMAIN s.live : s.samples[s.live[i] + 1].L = t
 RemoveOK(s, lst)        == lst \notin {"init", "finalise"} /\ ~s.liveNone
                            /\ (ReplaceAll \/ s.thr # 0)
 FinaliseOK(s, lst)      == lst \notin {"init", "finalise"} /\ ~s.liveNone
